@@ -8,6 +8,7 @@ import jax
 import jax.numpy as jnp
 
 from fdtdx.config import SimulationConfig
+from fdtdx.core import verif_hooks
 from fdtdx.core.progress import _make_pbar, _wrap_body_with_progress
 from fdtdx.fdtd.backward import backward
 from fdtdx.fdtd.container import ArrayContainer, FieldState, ObjectContainer, PmlAuxField, SimulationState
@@ -304,6 +305,7 @@ def reversible_fdtd(
                 time_step, arrs = state
                 for ckpt_fields, s_i in zip(checkpoints, checkpoint_times):
                     cur_fields = arrs.fields
+                    verif_hooks.emit_checkpoint_select(time_step, s_i, time_step == s_i)
                     new_fields = jax.lax.cond(
                         time_step == s_i,
                         lambda cf=ckpt_fields: cf,
